@@ -48,6 +48,21 @@ func VsymC11_Served() {
 	advertised := version >= min && version <= max
 	req := vsymC11Request(key)
 	vsym_Assert(req != nil, "C11/request-built")
+	if key == 18 && version > max {
+		// KIP-511: a client newer than the broker gets UNSUPPORTED_VERSION in the v0 layout, the
+		// only layout it can decode without knowing what the broker speaks
+		corr := vsym_Int32("correlation")
+		cid := "client"
+		out, err := b.h.Handle(context.Background(), &protocol.RequestHeader{APIKey: key, APIVersion: version, CorrelationID: corr, ClientID: &cid}, req)
+		vsym_Assert(err == nil && len(out) >= 4, "C11/too-new-apiversions-request-gets-a-reply")
+		vsym_Assert(int32(binary.BigEndian.Uint32(out[:4])) == corr, "C11/reply-carries-correlation-id")
+		v0 := kmsg.NewPtrApiVersionsResponse()
+		v0.SetVersion(0)
+		vsym_Assert(v0.ReadFrom(out[4:]) == nil && vsym_BytesEq(v0.AppendTo(nil), out[4:]), "C11/too-new-apiversions-request-answered-in-v0-layout")
+		vsym_Assert(v0.ErrorCode == 35 && len(v0.ApiKeys) == len(b.h.apiVersions), "C11/too-new-apiversions-request-answered-in-v0-layout")
+		vsym_Reach("too-new-apiversions")
+		return
+	}
 	if version > req.MaxVersion() {
 		vsym_Assume(false) // the codec itself cannot express this version
 	}
